@@ -11,6 +11,7 @@ pub struct HistCfg {
     pub with_clonep: bool,
     pub with_rmws: bool,
     pub rmws_pct: u64, // percent of the steps that are remove_insignificant_whitespace on any live node
+    pub clone_pct: u64, // percent of the steps that are clone_node / clone_with_prefixes on a node of any kind
 }
 
 fn kind_of(st: &Store, h: Handle) -> char {
@@ -47,6 +48,10 @@ pub fn gen_op(r: &mut Rng, st: &Store, pool: &Pool, cfg: &HistCfg) -> Op {
     let aname = *r.pick(&pool.attr_names);
     let pfx = *r.pick(&pool.prefixes);
     let uri = *r.pick(&pool.uris);
+    if cfg.clone_pct > 0 && r.chance(cfg.clone_pct, 100) {
+        let h = pick(r, st, &live, "DEETCPAN", 0);
+        return if cfg.with_clonep && r.chance(1, 2) { ClonePrefixes(h, vec![]) } else { CloneNode(h) };
+    }
     if cfg.with_rmws && r.chance(cfg.rmws_pct, 100) {
         return RemoveWs(pick(r, st, &live, "DET", 35));
     }
@@ -71,7 +76,7 @@ pub fn gen_op(r: &mut Rng, st: &Store, pool: &Pool, cfg: &HistCfg) -> Op {
         68..=71 => Wrap(pick(r, st, &live, "ETCP", b), name),
         72..=75 => Unwrap(pick(r, st, &live, "E", b)),
         76..=78 => CloneNode(pick(r, st, &live, "DETCPAN", b)),
-        79 => if cfg.with_clonep { ClonePrefixes(pick(r, st, &live, "DE", b)) } else { CloneNode(pick(r, st, &live, "DE", b)) },
+        79 => if cfg.with_clonep { ClonePrefixes(pick(r, st, &live, "DE", b), vec![]) } else { CloneNode(pick(r, st, &live, "DE", b)) },
         80 => SetName(pick(r, st, &live, "E", b / 4), name),
         81..=82 => SetAttr(pick(r, st, &live, "E", b / 4), aname, text(r)),
         83 => RmAttr(pick(r, st, &live, "E", b / 4), aname),
@@ -128,11 +133,16 @@ pub fn run_history(case: &str, pid: &str, seed_rng: &mut Rng, start: &[ANode], o
         let before = snapshot(&st);
         let before_forest = if pid == "C05" || pid == "ALL" { Some(oforest(&st)) } else { None };
         let c18_before = if pid == "C18" { Some(oforest(&st)) } else { None };
+        let c12_before = if pid == "C12" { Some((oforest(&st), root_texts(&st), in_place_serialises(&st, &op))) } else { None };
         let before_ser = serialisations(&st);
         let before_roots = st.roots();
         let live_before = st.live_handles();
         let outcome = exec(&mut st, &op);
         st.refresh();
+        let op = match (&op, &outcome) {
+            (Op::ClonePrefixes(h, _), Outcome::Ok(Some(c))) => Op::ClonePrefixes(*h, added_prefix_order(&st, *h, *c)),
+            _ => op,
+        };
         let after = snapshot(&st);
         stats.bump(&format!("op.{}", op_str(&op).split(' ').next().unwrap()));
         stats.bump(match &outcome { Outcome::Ok(_) => "outcome.ok", Outcome::Err(_) => "outcome.err", Outcome::Panic => "outcome.panic" });
@@ -180,6 +190,11 @@ pub fn run_history(case: &str, pid: &str, seed_rng: &mut Rng, start: &[ANode], o
                 }
                 None => stats.bump("c05.unpredicted"),
             }
+        }
+        // ---- C12: a clone is equal to its source, made of new nodes, and shares nothing; every call leaves alone the trees
+        //      none of its arguments lives in
+        if let Some((bf, texts, in_place)) = &c12_before {
+            c12_oracle(case, k, &op, &outcome, bf, texts, *in_place, &st, out, stats);
         }
         // ---- C18: remove_insignificant_whitespace removes exactly the insignificant whitespace; a second call changes nothing
         if pid == "C18" {
@@ -278,7 +293,7 @@ pub fn main_for(pid: &str) {
         let pool = make_pool(&mut tmp.xot, &mut tmp.reg, true);
         let ntrees = 1 + r.below(3);
         let start: Vec<ANode> = (0..ntrees).map(|_| gen_tree(&mut r, &gcfg, &pool)).collect();
-        let cfg = HistCfg { steps, refusal_bias: if pid == "C06" { 45 } else { 25 }, with_clonep: false, with_rmws: false, rmws_pct: 0 };
+        let cfg = HistCfg { steps, refusal_bias: if pid == "C06" { 45 } else { 25 }, with_clonep: false, with_rmws: false, rmws_pct: 0, clone_pct: 0 };
         let case = format!("c{}", k);
         let init_cons = k % 6 != 5;
         let (tables, init, ops, obs) = run_history(&case, pid, &mut r, &start, None, &cfg, &mut out, &mut stats, init_cons);
@@ -304,7 +319,7 @@ fn replay_line(pid: &str, line: &str, out: &mut Out, stats: &mut Stats) {
     let tree_text: String = init.split(' ').skip(1).map(|t| strip_handle(t)).collect::<Vec<_>>().join(" ");
     let start = crate::treeparse::parse_anodes(&tree_text);
     let mut r = Rng::new(0);
-    let cfg = HistCfg { steps: ops.len(), refusal_bias: 0, with_clonep: false, with_rmws: false, rmws_pct: 0 };
+    let cfg = HistCfg { steps: ops.len(), refusal_bias: 0, with_clonep: false, with_rmws: false, rmws_pct: 0, clone_pct: 0 };
     let (tables, init2, ops2, obs) = run_history(case, pid, &mut r, &start, Some(ops), &cfg, out, stats, cons);
     if init2 != init {
         // the rebuilt start state does not have the recorded handles: the replay is not faithful
@@ -472,7 +487,7 @@ pub fn main_c18() {
         let pool = make_pool(&mut tmp.xot, &mut tmp.reg, true);
         let ntrees = 1 + r.below(2);
         let start: Vec<ANode> = (0..ntrees).map(|_| gen_tree(&mut r, &gcfg, &pool)).collect();
-        let cfg = HistCfg { steps, refusal_bias: 10, with_clonep: false, with_rmws: true, rmws_pct: 55 };
+        let cfg = HistCfg { steps, refusal_bias: 10, with_clonep: false, with_rmws: true, rmws_pct: 55, clone_pct: 0 };
         let case = format!("c{}", k);
         let init_cons = k % 5 != 4;
         let (tables, init, ops, obs) = run_history(&case, "C18", &mut r, &start, None, &cfg, &mut out, &mut stats, init_cons);
@@ -484,4 +499,163 @@ pub fn main_c18() {
         out.imp(&format!("{} {}", case, obs));
     }
     out.finish(&stats);
+}
+
+// ------------------------------------------------------------------------------------------------------------
+// C12 oracles
+
+/// every tree as text with handles, keyed by its root
+fn root_texts(st: &Store) -> std::collections::BTreeMap<Handle, String> {
+    st.roots().iter().map(|r| (*r, st.tree_text(st.known[r]))).collect()
+}
+
+fn root_of(f: &OForest, mut h: Handle) -> Handle {
+    while let Some(p) = f.nodes[&h].parent { h = p; }
+    h
+}
+
+/// does the argument of a clone_with_prefixes call serialise where it is?
+fn in_place_serialises(st: &Store, op: &Op) -> bool {
+    match op {
+        Op::ClonePrefixes(h, _) => matches!(guard(|| st.xot.to_string(st.known[h])), Ok(Ok(_))),
+        _ => false,
+    }
+}
+
+#[allow(clippy::too_many_arguments)]
+fn c12_oracle(case: &str, k: usize, op: &Op, outcome: &Outcome, before: &OForest, texts: &std::collections::BTreeMap<Handle, String>, in_place: bool,
+              st: &Store, out: &mut Out, stats: &mut Stats) {
+    // frame: a tree that contains no argument of the call is untouched (same nodes, handles, values, order)
+    let arg_roots: Vec<Handle> = op_nodes(op).iter().filter(|h| before.nodes.contains_key(h)).map(|h| root_of(before, *h)).collect();
+    let now = root_texts(st);
+    if !matches!(outcome, Outcome::Panic) {
+        for (r, t) in texts {
+            if arg_roots.contains(r) { continue; }
+            match now.get(r) {
+                Some(t2) if t2 == t => {}
+                _ => out.fail(case, "unrelated-tree-changed", &format!("step {}: `{}` changed the tree rooted at {} although none of its arguments lives there", k, op_str(op), hs(*r))),
+            }
+        }
+    }
+    let (src, with_prefixes) = match op { Op::CloneNode(h) => (*h, false), Op::ClonePrefixes(h, _) => (*h, true), _ => return };
+    let clone = match outcome {
+        Outcome::Ok(Some(c)) => *c,
+        other => { out.fail(case, "clone-failed", &format!("step {}: `{}` returned {}", k, op_str(op), outcome_str(other))); return; }
+    };
+    stats.bump(if with_prefixes { "c12.clone_with_prefixes" } else { "c12.clone_node" });
+    let after = oforest(st);
+    // the source tree is unchanged
+    let sr = root_of(before, src);
+    if texts.get(&sr) != now.get(&sr) {
+        out.fail(case, "clone-changed-source", &format!("step {}: `{}` changed the tree of its source", k, op_str(op)));
+    }
+    // unattached, and made of new nodes only
+    if after.nodes[&clone].parent.is_some() { out.fail(case, "clone-attached", &format!("step {}: the clone has a parent", k)); }
+    let mut stack = vec![clone];
+    let mut n_nodes = 0;
+    while let Some(h) = stack.pop() {
+        n_nodes += 1;
+        if before.nodes.contains_key(&h) { out.fail(case, "clone-shares-node", &format!("step {}: node {} of the clone existed before the call", k, hs(h))); }
+        stack.extend(after.nodes[&h].kids.iter().copied());
+    }
+    stats.add("c12.cloned_nodes", n_nodes);
+    // equal to the source up to merging of adjacent text (consolidation on), declarations and attribute order included;
+    // clone_with_prefixes may add declarations after the source's own
+    fn shape(f: &OForest, h: Handle, merge: bool, top_extra_ns: Option<usize>) -> String {
+        let n = &f.nodes[&h];
+        let mut kids: Vec<String> = vec![];
+        let mut run: Option<String> = None;
+        let mut ns_seen = 0;
+        for k in &n.kids {
+            if let OVal::Ns(..) = f.nodes[k].val {
+                ns_seen += 1;
+                if let Some(keep) = top_extra_ns { if ns_seen > keep { continue; } }
+            }
+            if let (true, OVal::Text(t)) = (merge, &f.nodes[k].val) {
+                run = Some(run.unwrap_or_default() + t);
+            } else {
+                if let Some(t) = run.take() { kids.push(format!("T{:?}", t)); }
+                kids.push(shape(f, *k, merge, None));
+            }
+        }
+        if let Some(t) = run.take() { kids.push(format!("T{:?}", t)); }
+        format!("({:?} {})", n.val, kids.join(" "))
+    }
+    let merge = before.cons;
+    let own_ns = before.nodes[&src].kids.iter().filter(|k| matches!(before.nodes[k].val, OVal::Ns(..))).count();
+    let a = shape(before, src, merge, None);
+    let b = shape(&after, clone, merge, if with_prefixes { Some(own_ns) } else { None });
+    if a != b {
+        out.fail(case, "clone-differs-from-source", &format!("step {}: `{}`: source {} but clone {}", k, op_str(op), a, b));
+    }
+    if merge && after.any_adjacent_text_under(clone) {
+        out.fail(case, "clone-has-adjacent-text", &format!("step {}: the clone has adjacent text nodes although consolidation is on", k));
+    }
+    // clone_with_prefixes: serialises on its own whenever the source serialised in place
+    if with_prefixes && in_place {
+        stats.bump("c12.source_serialised_in_place");
+        if !matches!(guard(|| st.xot.to_string(st.known[&clone])), Ok(Ok(_))) {
+            out.fail(case, "clone-with-prefixes-does-not-serialise", &format!("step {}: `{}`: the source serialises in place but the clone does not serialise on its own", k, op_str(op)));
+        }
+    }
+}
+
+/// C12: clone-heavy histories; every node kind as source; mutation of either side afterwards; plus Xot::clone
+pub fn main_c12() {
+    quiet_panics();
+    let a = args();
+    let mut out = Out::new(&a.out);
+    let mut stats = Stats::default();
+    if let Some(path) = &a.replay {
+        let text = std::fs::read_to_string(path).expect("replay file");
+        for line in text.lines().filter(|l| !l.trim().is_empty()) {
+            replay_line("C12", line, &mut out, &mut stats);
+        }
+        out.finish(&stats);
+        return;
+    }
+    let base = Rng::new(a.seed);
+    let steps = if a.tier == "thorough" { 30 } else { 22 };
+    for k in 0..a.n {
+        let mut r = base.fork(k as u64);
+        let gcfg = GenCfg { max_nodes: 14, max_depth: 4, max_fanout: 3, adjacent_text: k % 3 == 0, empty_text: false, doc_root: 50, ..GenCfg::default() };
+        let mut tmp = Store::new();
+        let pool = make_pool(&mut tmp.xot, &mut tmp.reg, true);
+        let ntrees = 1 + r.below(2);
+        let start: Vec<ANode> = (0..ntrees).map(|_| { let mut t = gen_tree(&mut r, &gcfg, &pool); declare_missing(&mut r, &mut t, &tmp.reg, &pool, 70); t }).collect();
+        let cfg = HistCfg { steps, refusal_bias: 12, with_clonep: true, with_rmws: false, rmws_pct: 0, clone_pct: 22 };
+        let case = format!("c{}", k);
+        let init_cons = k % 4 != 3;
+        let (tables, init, ops, obs) = run_history(&case, "C12", &mut r, &start, None, &cfg, &mut out, &mut stats, init_cons);
+        let ops_text: Vec<String> = ops.iter().map(op_str).collect();
+        let line = format!("{} {} | {} | {}", case, tables, init, ops_text.join(";"));
+        out.case(&line);
+        stats.case(&line, ops.iter().any(|o| matches!(o, Op::CloneNode(_) | Op::ClonePrefixes(..))));
+        stats.sample(&line);
+        out.imp(&format!("{} {}", case, obs));
+        // Xot::clone: an independent store in which every handle denotes an equal node
+        xot_clone_check(&case, &mut r, &start, &pool, &mut out, &mut stats);
+    }
+    out.finish(&stats);
+}
+
+fn xot_clone_check(case: &str, r: &mut Rng, start: &[ANode], pool: &Pool, out: &mut Out, stats: &mut Stats) {
+    let mut st = Store::new();
+    let _ = make_pool(&mut st.xot, &mut st.reg, true);
+    for a in start { let n = build(&mut st.xot, &st.reg, a); st.learn(n); }
+    st.refresh();
+    let cfg = HistCfg { steps: 6, refusal_bias: 10, with_clonep: false, with_rmws: false, rmws_pct: 0, clone_pct: 10 };
+    for _ in 0..4 { let op = gen_op(r, &st, pool, &cfg); let _ = exec(&mut st, &op); st.refresh(); }
+    let snapshot_text = st.readback();
+    let names_before: Vec<(String, String)> = st.reg.names.iter().map(|(_, _, id)| { let (l, u) = st.xot.name_ns_str(*id); (l.to_string(), u.to_string()) }).collect();
+    let copy = st.xot.clone();
+    // the copy reads back as the original, handle for handle, id for id
+    let copy_store = Store { xot: copy, reg: Reg { nss: st.reg.nss.clone(), prefixes: st.reg.prefixes.clone(), names: st.reg.names.clone() }, known: st.known.clone(), ever_unconsolidated: st.ever_unconsolidated, cons_off: st.cons_off };
+    if copy_store.readback() != snapshot_text { out.fail(case, "xot-clone-differs", "the cloned Xot reads back differently from the original"); }
+    // mutate the original; the copy must not notice
+    for _ in 0..8 { let op = gen_op(r, &st, pool, &cfg); let _ = exec(&mut st, &op); st.refresh(); }
+    if copy_store.readback() != snapshot_text { out.fail(case, "xot-clone-not-independent", "mutating the original Xot changed the clone"); }
+    let names_after: Vec<(String, String)> = copy_store.reg.names.iter().map(|(_, _, id)| { let (l, u) = copy_store.xot.name_ns_str(*id); (l.to_string(), u.to_string()) }).collect();
+    if names_before != names_after { out.fail(case, "xot-clone-ids-differ", "a name id denotes another name in the cloned Xot"); }
+    stats.bump("c12.xot_clone_checked");
 }
